@@ -55,6 +55,10 @@ def _verify_one(q):
 
 
 def _child(q, path):
+    import faulthandler
+
+    if os.environ.get("PYVC_TRACE_HANG_S"):
+        faulthandler.dump_traceback_later(int(os.environ["PYVC_TRACE_HANG_S"]), exit=True)
     r = _verify_one(q)
     with open(path, "w") as f:
         json.dump(r, f, default=str)
@@ -72,6 +76,7 @@ def run_functions(fns, jobs, deadline_s):
     pending = list(enumerate(fns))
     running = {}
     out = {}
+    tries = {}
     while pending or running:
         while pending and len(running) < jobs:
             i, q = pending.pop(0)
@@ -91,12 +96,17 @@ def run_functions(fns, jobs, deadline_s):
                 del running[i]
             elif time.time() - t0 > deadline_s:
                 try:
-                    os.killpg(os.getpgid(p.pid), signal.SIGKILL) if False else p.kill()
+                    p.kill()
                 except Exception:
                     pass
                 p.join()
-                out[i] = {"qname": q, "status": "rejected", "reason": "deadline of %ds exceeded" % deadline_s, "obligations": [], "paths": 0, "trivial": 0, "inlined": [], "dropped": [], "cover": None, "seconds": time.time() - t0, "obl_names": []}
                 del running[i]
+                tries[i] = tries.get(i, 0) + 1
+                if tries[i] <= 2:
+                    # a z3 call that ignores its limits is rare and not reproducible: try again
+                    pending.append((i, q))
+                else:
+                    out[i] = {"qname": q, "status": "rejected", "reason": "deadline of %ds exceeded three times" % deadline_s, "obligations": [], "paths": 0, "trivial": 0, "inlined": [], "dropped": [], "cover": None, "seconds": time.time() - t0, "obl_names": []}
     import shutil
 
     shutil.rmtree(tmpd, ignore_errors=True)
@@ -188,7 +198,7 @@ def main():
     fns.sort()
     results = []
     if fns:
-        results = run_functions(fns, args.jobs, float(os.environ.get("PYVC_FN_DEADLINE_S", "900" if args.tier == "quick" else "3600")))
+        results = run_functions(fns, args.jobs, float(os.environ.get("PYVC_FN_DEADLINE_S", "420" if args.tier == "quick" else "1800")))
 
     base_path = os.path.join(VERIF, "baseline", pid + ".json")
     baseline = json.load(open(base_path)).get("obligations", {}) if os.path.exists(base_path) else {}
